@@ -335,22 +335,6 @@ func truthMatch(s, c cidT) (match bool, ok bool) {
 	return match, true
 }
 
-// guardedMatch is equalOnNonEmptyFields when a pattern that does not compile matches nothing (the repaired
-// behaviour of finding F13), computed with Go's regexp.
-func guardedMatch(s, c cidT) byte {
-	conj := [][3]int{{fCtx, fCtx, fCtx}, {fPkg, fPkg, fPkg}, {fPkg, fIface, fIface}, {fMeth, fMeth, fMeth}, {fRecv, fRecv, fRecv}, {fFld, fFld, fFld}, {fTyp, fTyp, fTyp}, {fVM, fVM, fVM}}
-	for _, t := range conj {
-		re, err := regexp.Compile(s[t[0]])
-		if !((err == nil && re.MatchString(c[t[1]])) || s[t[2]] == "") {
-			return '0'
-		}
-	}
-	if s[fKind] != c[fKind] {
-		return '0'
-	}
-	return '1'
-}
-
 func loadConfig(text string) (cfg *config.Config, err error) {
 	quiet(func() { cfg, err = config.Load("c04.yaml", []byte(text)) })
 	return
@@ -455,12 +439,12 @@ func stageMatrix(rep *lib.Report, extraCids []cidT) {
 			}
 			if real == 'p' {
 				panics++
-				if model == 'p' && !knownPanic {
-					// F13: run once as the fixed-corpus input of the recorded finding
+				if !knownPanic {
+					// regression case of finding F13 (fixed by e35b228): a pattern that does not compile must match nothing
 					knownPanic = true
-					corpusWrite(kF13, content())
-					rep.Fail(kF13, fmt.Sprintf("%s specification %v: the pattern does not compile, config.Load keeps a nil *regexp.Regexp and the first match panics (identifier %v)", roles[s.role], s.c, c), content(), false)
+					rep.Fail(kF13, fmt.Sprintf("%s specification %v: the pattern does not compile, config.Load keeps a nil *regexp.Regexp and the match panics (identifier %v)", roles[s.role], s.c, c), content(), false)
 				}
+				continue
 			}
 			if inDomain {
 				t := byte('0')
@@ -478,11 +462,6 @@ func stageMatrix(rep *lib.Report, extraCids []cidT) {
 				}
 			} else {
 				outside++
-				if model == 'p' && real == guardedMatch(s.c, c) {
-					// the repair of F13 (a nil regex matches nothing instead of panicking) is in place
-					rep.Count("match-result:invalid-pattern-matches-nothing(F13 repaired)")
-					continue
-				}
 				if model != real {
 					mism++
 					rep.Fail(fmt.Sprintf("cid-match-model:%v|%v", s.c, c),
